@@ -130,6 +130,10 @@ def tree_cases(ctx, lines, expect):
         after = tree_wire(model, ids)
         lines.append(f"quant08 {before} {'none' if filt is None else (list_s(fids) if fids else '-')} {wq} {'none' if aq is None else aq}")
         expect.append(after)
+        # the loop as written (named_modules + set_module_by_name) next to the structural map: same result,
+        # and the names / identities in the order the implementation iterates them
+        lines.append(f"flat08 {before} {'none' if filt is None else (list_s(fids) if fids else '-')} {wq} {'none' if aq is None else aq}")
+        expect.append(after + " " + ";".join(names) + " " + ",".join(str(ids[p]) for p in names) + " true")
         ctx.count(f"tree:filter={'yes' if filt is not None else 'no'}:acts={'yes' if aq else 'no'}")
         ctx.nontriv((before, None if filt is None else tuple(fids), wq, aq))
         # the property, stated directly: a module is replaced iff it is eligible and selected; everything else is the same object
@@ -162,6 +166,21 @@ def tree_cases(ctx, lines, expect):
         for n_, m in model.named_modules():
             if hparams(m) != hp_before[n_]:
                 ctx.spec_failures.append(("C08:hyper-parameters-not-preserved", {"tree": before, "module": n_, "before": str(hp_before[n_]), "after": str(hparams(m))}))
+        # set_module_by_name itself, on the quantized tree: replace one named module, compare with `Mod.setAt`
+        from optimum.quanto.quantize import set_module_by_name
+        cand = [p for p in names if p != ""]
+        if cand:
+            target = rng.choice(cand)
+            try:
+                set_module_by_name(model, target, torch.nn.Identity())
+                lines.append(f"setat08 {after} {target} L{ids[target]}:o-Identity")
+                expect.append(tree_wire(model, ids))
+                ctx.count(f"setat:depth={target.count('.') + 1}")
+                got = dict(model.named_modules()).get(target)
+                if not isinstance(got, torch.nn.Identity):
+                    ctx.spec_failures.append(("C08:set-module-by-name-misses-its-target", {"tree": after, "name": target}))
+            except Exception as e:  # noqa
+                ctx.spec_failures.append((f"C08:set-module-by-name-raises:{exc_name(e)}", {"tree": after, "name": target, "message": str(e)[:200]}))
 
 
 class ActSpy:
